@@ -28,13 +28,16 @@ pub struct Quirks {
     pub bimul_flags: bool,
     /// JLE/JNG taken iff ZF=1 and SF!=OF (manual: ZF=1 or SF!=OF)
     pub jle_and: bool,
+    /// LEA reg, memory yields (physical address - DS*16) mod 2^16 (manual: the 16-bit offset)
+    pub lea_phys: bool,
 }
 
-pub const QUIRK_KEYS: [&str; 4] = [
+pub const QUIRK_KEYS: [&str; 5] = [
     "quirk:incdec-cf",
     "quirk:neg0-sf",
     "quirk:byte-imul-flags",
     "quirk:jle-and",
+    "quirk:lea-phys-minus-ds",
 ];
 
 impl Quirks {
@@ -42,7 +45,7 @@ impl Quirks {
         Quirks::default()
     }
     pub fn any(&self) -> bool {
-        self.incdec_cf || self.neg0_sf || self.bimul_flags || self.jle_and
+        self.incdec_cf || self.neg0_sf || self.bimul_flags || self.jle_and || self.lea_phys
     }
     pub fn from_keys<F: Fn(&str) -> bool>(open: F) -> Quirks {
         Quirks {
@@ -50,6 +53,7 @@ impl Quirks {
             neg0_sf: open(QUIRK_KEYS[1]),
             bimul_flags: open(QUIRK_KEYS[2]),
             jle_and: open(QUIRK_KEYS[3]),
+            lea_phys: open(QUIRK_KEYS[4]),
         }
     }
     pub fn keys(&self) -> Vec<&'static str> {
@@ -65,6 +69,9 @@ impl Quirks {
         }
         if self.jle_and {
             v.push(QUIRK_KEYS[3]);
+        }
+        if self.lea_phys {
+            v.push(QUIRK_KEYS[4]);
         }
         v
     }
